@@ -804,6 +804,9 @@ def _quant(ex, e, st, universal):
     j = tm.bvar(fresh_name('q'), INT)
     o2 = o.copy()
     o2.env[gen.target.id] = VInt(j)
+    o2 = o2.assume(And(Le(lo, j), Lt(j, hi)))
+    if o2 is None:
+        return [(o, VBool(boollit(universal)))]
     conds = [TRUE]
     for c in gen.ifs:
         r = ex.ev_cond(c, o2)
@@ -824,19 +827,25 @@ def _quant(ex, e, st, universal):
 
 def s_implies(ex, e, st):
     outs = ex.ev_cond(e.args[0], st)
-    if len(outs) != 1:
-        raise SpecError('implies(): antecedent forked')
+    outs = [(o, c) for o, c in outs if o.running or ex.path_feasible(o)]
+    if len(outs) != 1 or not outs[0][0].running:
+        raise SpecError('implies(): antecedent not pure/total (line %s)' % e.lineno)
     o, a = outs[0]
-    outs2 = ex.ev_cond(e.args[1], o)
-    if len(outs2) != 1:
-        # evaluate consequent under the antecedent to avoid spurious forks
-        o_a = o.assume(a)
-        if o_a is None:
-            return [(o, VBool(TRUE))]
-        outs2 = ex.ev_cond(e.args[1], o_a)
-        if len(outs2) != 1:
-            raise SpecError('implies(): consequent forked')
-    return [(o, VBool(Implies(a, outs2[0][1])))]
+    o_a = o.assume(a)
+    if o_a is None:
+        return [(o, VBool(TRUE))]
+    outs2 = ex.ev_cond(e.args[1], o_a)
+    outs2 = [(s2, c) for s2, c in outs2 if s2.running or ex.path_feasible(s2)]
+    if any(not s2.running for s2, _ in outs2):
+        raise SpecError('implies(): consequent may raise (line %s)' % e.lineno)
+    n = len(o_a.pc)
+    cons = FALSE
+    if len(outs2) == 1:
+        cons = outs2[0][1]
+    else:
+        for s2, c in outs2:
+            cons = Or(cons, And(And(*s2.pc[n:]), c))
+    return [(o, VBool(Implies(a, cons)))]
 
 
 SPEC_BUILTINS = {
